@@ -67,7 +67,7 @@ class C08(core.Check):
 
     def space(self):
         if self.tier == "thorough":
-            return rt.OptSpace(al.ir_space(self.tier), self.option_list())
+            return core.Concat(rt.OptSpace(al.ir_space(self.tier), self.option_list()), _Cross(al.S_C()))
         full = self.option_list()
         keep = []
         seen = set()
@@ -82,9 +82,12 @@ class C08(core.Check):
             if key not in seen:
                 seen.add(key)
                 keep.append(o)
-        return core.Concat(rt.OptSpace(al.S_A(), keep), rt.OptSpace(al.S_B((2,)), full))
+        return core.Concat(rt.OptSpace(al.S_A(), keep), rt.OptSpace(al.S_B((2,)), full),
+                           _Cross(al.IRSpace(al.A_CHAIN, (0, 1), al.RETURNS_RED, al.KWARGS, (0,))))
 
     def run_case(self, case):
+        if "via" in case:
+            return self.run_cross(case)
         atoms, ret, ir = al.case_ir(case)
         opts = case["opts"]
         kind = opts["kind"]
@@ -120,8 +123,54 @@ class C08(core.Check):
         return sites, nontrivial, [texts[0], len(set(texts))]
 
 
+def _cross_run(self, case):
+    """'A definition that doctrans itself produced is never changed again by converting it to itself':
+    s = emit_K2(parse_K1(emit_K1(ir))); T = emit_K2 . parse_K2; require T(T(s)) == T(s)."""
+    from mc.props.c05 import KIND_OPTS
+
+    atoms, ret, ir = al.case_ir(case)
+    k1, k2 = case["via"], case["kind"]
+    base = {"o.kind": k2, "via": k1}
+    cf = dict(base, **rt.case_facts(case, atoms, ret))
+    try:
+        s0 = rt.emit_kind(k2, rt.parse_kind(k1, rt.emit_kind(k1, ir, KIND_OPTS[k1])), KIND_OPTS[k2])
+        s1 = rt.emit_kind(k2, rt.parse_kind(k2, s0), KIND_OPTS[k2])
+    except Exception:
+        return [], None, "first-pass-raise"
+    try:
+        s2 = rt.emit_kind(k2, rt.parse_kind(k2, s1), KIND_OPTS[k2])
+    except Exception as e:
+        return [site(False, dict(cf, field="cross.pass3"), fail="raise_in_later_pass", **core.exc_obs(e))], [k1, k2, s0], "later-raise"
+    if s1 == s2:
+        return [site(True, dict(cf, field="cross.fix"))], [k1, k2, s0], [s0, 1]
+    return [site(False, dict(cf, field="cross.fix"), fail="drift", **diff_class(s1, s2))], [k1, k2, s0], [s0, 2]
+
+
+C08.run_cross = _cross_run
+
+
 def jk(o):
     return core.jkey(o)
+
+
+class _Cross(core.Space):
+    """IR x ordered pair of distinct kinds (K1 -> K2): the artefact of kind K2 that doctrans itself produced from K1."""
+
+    def __init__(self, irs):
+        self.irs = irs
+        self.pairs = [(a, b) for a in rt.KINDS for b in rt.KINDS if a != b]
+
+    def __len__(self):
+        return len(self.irs) * len(self.pairs)
+
+    def __getitem__(self, i):
+        j, p = divmod(i, len(self.pairs))
+        c = dict(self.irs[j])
+        c["via"], c["kind"] = self.pairs[p]
+        return c
+
+    def describe(self):
+        return {"irs": self.irs.describe(), "ordered_pairs": len(self.pairs), "size": len(self)}
 
 
 CHECK = C08
